@@ -1,126 +1,106 @@
 #!/usr/bin/env python3
 """Regenerates obligations/C04.json and obligations/C07.json (the registries are plain JSON
-and are what the driver reads; this script only spares writing ~150 near-identical entries
-by hand).  Usage: python3 harness/C04/mkjobs.py"""
-import json, os
+and are what the driver reads; this script only spares writing several hundred near-identical
+entries by hand).  Usage: python3 harness/C04/mkjobs.py"""
+import json, os, sys
 
 VERIF = os.path.dirname(os.path.dirname(os.path.dirname(os.path.abspath(__file__))))
 
 ALGS = {
-    # B = block size; fresh = transform replaced inside U/F; T jobs are listed separately
-    "md5":  dict(D="VF_ALG_MD5", B=64, bits=[None], pfx="md5", hpfx="hmac_md5",
-                 transform="md5_transform", init="md5_init", update="md5_update", final="md5_final",
+    "md5":  dict(D="VF_ALG_MD5", pfx="md5", hpfx="hmac_md5", variants=[None],
+                 transform=["md5_transform"], init="md5_init", update="md5_update", final="md5_final",
                  uloops="loops/hash_md5_update_safety.json", uloop_unwind="md5_update_wrapped_for_contract_checking.0"),
-    "sha1": dict(D="VF_ALG_SHA1", B=64, bits=[None], pfx="sha1", hpfx="hmac_sha1",
-                 transform="sha1_transform", init="sha1_init", update="sha1_update", final="sha1_final"),
-    "sha2": dict(D="VF_ALG_SHA2", B=None, bits=[224, 256, 384, 512], pfx="sha2", hpfx="hmac_sha2",
-                 transform="sha2_transform", init="sha2_init", update="sha2_update", final="sha2_final",
+    "sha1": dict(D="VF_ALG_SHA1", pfx="sha1", hpfx="hmac_sha1", variants=[None],
+                 transform=["sha1_transform"], init="sha1_init", update="sha1_update", final="sha1_final"),
+    "sha2": dict(D="VF_ALG_SHA2", pfx="sha2", hpfx="hmac_sha2", variants=[224, 256, 384, 512],
+                 transform=["sha2_transform"], init="sha2_init", update="sha2_update", final="sha2_final",
                  f_cbmc=["--unwindset", "sha2_memcpy_bswap4.0:10,sha2_memcpy_bswap8.0:10", "--unwinding-assertions"]),
+    "gost": dict(D="VF_ALG_GOST", pfx="gost3411_2012", hpfx="hmac_gost3411_2012", variants=[256, 512],
+                 transform=["gost3411_2012_transform_n", "gost3411_2012_transform_1"],
+                 init="gost3411_2012_init", update="gost3411_2012_update", final="gost3411_2012_final"),
 }
 
 
 def blk_of(alg, bits):
     if alg == "sha2":
         return 64 if bits <= 256 else 128
-    return ALGS[alg]["B"]
+    return 64
+
 
 A_SIMD = "SIMD/SHA-NI/AVX transforms compiled out exactly as tests/hash/main.c does (#undef __SSE2__): only the portable transforms are verified"
 A_WIPE = "the volatile function pointer *_memset_volatile holds its initialiser memset (re-established by the harness, --dfcc havocs mutable statics); volatile qualifier not modelled"
 A_LOG = "compression function replaced by its block-logging contract (contracts/<alg>.h, VF_TRANSFORM_LOG): arbitrary chaining value, scratch clobbered, block appended to the ghost log; discharged by the T jobs"
-A_STREAM = "hash primitives *_init/_update/_final replaced by their byte-stream contracts (contracts/<alg>.h, VF_HASH_STREAM); these are the U/F contracts seen through the representation relation count == stream length, tail == last (length mod B) bytes, block log == the rest"
-A_BYTELOOP = "memcpy/memset given their defining byte-loop bodies (stubs/hash_libc.h, VF_LIBC_BYTELOOP) because CBMC 6.11's built-in model loses the bytes of a symbolic-length copy into a local array"
-A_MEMCPY_C = "memcpy replaced by its assumed contract (stubs/hash_libc.h, VF_LIBC_CONTRACTS: reads src[0..n), writes exactly dst[0..n)) in the unbounded safety half; contents are covered by the bounded content half with CBMC's own memcpy model"
+A_STREAM = "hash primitives *_init/_update/_final replaced by their byte-stream contracts (contracts/<alg>.h, VF_HASH_STREAM); these are the I/U/F contracts seen through the representation relation count == stream length, tail == last (length mod B) bytes, block log == the rest"
+A_BYTELOOP = "memcpy/memset given their defining byte-loop bodies (stubs/hash_libc.h, VF_LIBC_BYTELOOP) because CBMC 6.11's built-in model mis-handles a symbolic-length copy into a word-typed buffer"
+A_MEMCPY_C = "memcpy replaced by its assumed contract (stubs/hash_libc.h, VF_LIBC_CONTRACTS: reads src[0..n), writes exactly dst[0..n)) in the unbounded safety half; contents are covered by the bounded content half"
+A_BUILTIN = "CBMC's built-in memset/memcpy models (constant-size wipe, symbolic-size zero padding)"
 A_CVC5 = "SMT back end cvc5 1.0.3 (z3 4.8.12 and the SAT back ends do not finish on the ARX equivalences)"
 A_KEY = "HMAC key pointer is a valid object even for key_len == 0 (memcpy(dst, NULL, 0) is formally undefined and not examined)"
 
-QUICK_TAILS = lambda B: [0, 1, B - 9, B - 8, B - 1]
+
+def quick_tails(B, lenbytes):
+    """0, 1, and the padding-boundary residues: last tail with one final block, first with two, B-1"""
+    return [0, 1, B - lenbytes - 1, B - lenbytes, B - 1]
 
 
-def c04_jobs():
+def t_job(name, harness, defs, fn, rounds, tier="quick", timeout=300, extra=None):
+    j = dict(name=name, harness=harness, defines=defs, enforce=[fn], functions=[fn], backend="cvc5",
+             cbmc=["--unwind", str(rounds + 2), "--unwinding-assertions"], route="finite", timeout=timeout, tier=tier,
+             assumptions=[A_SIMD, A_CVC5])
+    if extra:
+        j.update(extra)
+    return j
+
+
+def u_jobs(tag, a, base, B, lenbytes):
+    """U: safety half + content half (one job per entry tail length)."""
     jobs = []
-    # ---------------- MD5 ----------------
-    a = ALGS["md5"]
-    for r in range(4):
-        jobs.append(dict(name="md5.T.align%d" % r, harness="harness/C04/md5_T.c", defines=["VF_ALIGN=%d" % r],
-                         enforce=["md5_transform"], functions=["md5_transform"], backend="cvc5",
-                         cbmc=["--unwind", "66", "--unwinding-assertions"], route="finite", timeout=120,
-                         assumptions=[A_SIMD, A_CVC5]))
-    jobs.append(dict(name="md5.T.alias", harness="harness/C04/md5_T.c", defines=["VF_T_ALIAS"],
-                     enforce=["md5_transform"], functions=["md5_transform"], backend="cvc5",
-                     cbmc=["--unwind", "66", "--unwinding-assertions"], route="finite", timeout=120,
-                     assumptions=[A_SIMD, A_CVC5]))
-    jobs += iuf_jobs("md5", a, None)
-    # ---------------- SHA-1, SHA-2 ----------------
-    jobs.append(dict(name="sha.lemma.ch_maj", harness="harness/C04/sha_lemma.c", mode="plain", functions=[],
-                     cbmc=[], route="finite", timeout=120,
-                     assumptions=["lemma used by specs/sha1_spec.h, specs/sha2_spec.h: OR spelling of Ch/Maj == FIPS 180-4 XOR spelling"]))
-    for alg, gen, blk, rounds in (("sha1", "sha1_transform_generic", 64, 80),
-                                  ("sha2", "sha2_transform_block64_generic", 64, 64),
-                                  ("sha2", "sha2_transform_block128_generic", 128, 80)):
-        a = ALGS[alg]
-        tag = "sha1" if alg == "sha1" else "sha2_b%d" % blk
-        base = [a["D"]] + (["VF_BLK=%d" % blk] if alg == "sha2" else [])
-        disp = a["transform"]
-        uw = ["--unwind", str(max(rounds, blk) + 2), "--unwinding-assertions"]
-        def T(name, defs, fn, replace=None, tier="quick"):
-            jobs.append(dict(name="%s.T.%s" % (tag, name), harness="harness/C04/sha_T.c", defines=base + defs + ["VF_T_FN=" + fn],
-                             enforce=[fn], **({"replace": replace} if replace else {}), functions=[fn], backend="cvc5",
-                             cbmc=uw, route="finite", timeout=300, tier=tier, assumptions=[A_SIMD, A_CVC5]))
-        T("n1", [], gen)
-        T("n1.align1", ["VF_ALIGN=1"], gen)
-        if alg == "sha1":
-            T("n2", ["VF_T_NBLK=2"], gen)
-        for n in ((2, 3) if alg == "sha1" else ()):
-            jobs.append(dict(name="%s.T.chain%d" % (tag, n), harness="harness/C04/sha_T_chain.c", mode="plain",
-                             defines=base + ["VF_T_NBLK=%d" % n, "VF_T_FN=" + gen], functions=[gen], backend="cvc5",
-                             cbmc=["--unwind", str(max(rounds, blk) + 2), "--unwinding-assertions"], route="bounded",
-                             bound="%d consecutive blocks in one call (the block loop is the same code for every count)" % n,
-                             timeout=300, assumptions=[A_SIMD, A_CVC5]))
-        T("alias", ["VF_T_ALIAS"], gen)
-        T("dispatch", [], disp)  # the dispatcher with the generic transform inlined
-    jobs += iuf_jobs("sha1", ALGS["sha1"], None)
-    for bits in ALGS["sha2"]["bits"]:
-        jobs += iuf_jobs("sha2", ALGS["sha2"], bits)
-    return jobs
+    upd, tr = a["update"], a["transform"][:1]
+    if a.get("uloops"):
+        jobs.append(dict(name=tag + ".U.safety", harness="harness/C04/hash_UF.c",
+                         defines=base + ["VF_TRANSFORM_LOG", "VF_FN_update", "VF_U_NOCONTENT", "VF_LIBC_CONTRACTS"],
+                         enforce=[upd], replace=tr + ["memcpy"], functions=[upd],
+                         loops=a["uloops"], cbmc=[], route="unbounded", timeout=600,
+                         assumptions=[A_SIMD, A_LOG, A_MEMCPY_C]))
+    else:
+        # the unbounded variant does not close for the larger contexts (SHA-1: 13.7 M variables,
+        # a symbolic-length havoc inside a 448-byte struct): exact-size span, bounded length
+        for nmax, tier, sfx in ((66, "quick", ""), (2 * B + 2, "thorough", ".n2")):
+            jobs.append(dict(name=tag + ".U.safety" + sfx, harness="harness/C04/hash_UF.c",
+                             defines=base + ["VF_TRANSFORM_LOG", "VF_FN_update", "VF_U_NOCONTENT", "VF_LIBC_BYTELOOP", "VF_U_NSAFE=%d" % nmax],
+                             enforce=[upd], replace=tr, functions=[upd],
+                             cbmc=["--unwindset", "memcpy.0:%d" % (nmax + 2), "--unwinding-assertions"], route="bounded",
+                             bound="data_size <= %d, data is an exact span of data_size bytes, entry tail length symbolic" % nmax,
+                             tier=tier, timeout=900, assumptions=[A_SIMD, A_LOG, A_BYTELOOP]))
 
-
-def iuf_jobs(alg, a, bits):
-    """I, U (safety + content per tail), F, one-shot, hex for one algorithm / digest size."""
-    jobs = []
-    B = blk_of(alg, bits)
-    tag = alg if bits is None else "%s_%d" % (alg, bits)
-    base = [a["D"]] + ([] if bits is None else ["VF_BITS=%d" % bits])
-    jobs.append(dict(name=tag + ".I", harness="harness/C04/hash_UF.c", defines=base + ["VF_FN_init"],
-                     enforce=[a["init"]], functions=[a["init"]], route="finite", timeout=120,
-                     assumptions=[A_SIMD]))
-    jobs.append(dict(name=tag + ".U.safety", harness="harness/C04/hash_UF.c",
-                     defines=base + ["VF_TRANSFORM_LOG", "VF_FN_update", "VF_U_NOCONTENT", "VF_LIBC_CONTRACTS"],
-                     enforce=[a["update"]], replace=[a["transform"], "memcpy"], functions=[a["update"]],
-                     **({"loops": a["uloops"]} if a.get("uloops") else {}),
-                     cbmc=[], route="unbounded", timeout=600,
-                     assumptions=[A_SIMD, A_LOG, A_MEMCPY_C]))
-    # content half of U: memcpy as byte loop (the built-in model mis-handles symbolic lengths into
-    # word-typed buffers), one job per entry tail length
-    def content(t, nmax, tier, suffix=""):
+    def content(t, nmax, tier, sfx=""):
         us = "memcpy.0:%d" % (nmax + 2)
         if a.get("uloop_unwind"):
             us += ",%s:%d" % (a["uloop_unwind"], nmax // B + 3)
-        jobs.append(dict(name="%s.U.content%s.t%d" % (tag, suffix, t), harness="harness/C04/hash_UF.c",
+        jobs.append(dict(name="%s.U.content%s.t%d" % (tag, sfx, t), harness="harness/C04/hash_UF.c",
                          defines=base + ["VF_TRANSFORM_LOG", "VF_FN_update", "VF_TAIL=%d" % t, "VF_U_NMAX=%d" % nmax, "VF_LIBC_BYTELOOP"],
-                         enforce=[a["update"]], replace=[a["transform"]], functions=[a["update"]],
+                         enforce=[upd], replace=tr, functions=[upd],
                          cbmc=["--unwindset", us, "--unwinding-assertions"], route="bounded",
-                         bound="data_size <= %d on a %d-byte data object, entry tail length fixed to %d "
-                               "(one job per tail length 0..%d; symbolic data_size, contents, count, chaining value)" % (nmax, nmax, t, B - 1),
+                         bound="data_size <= %d on a %d-byte data object, entry tail length fixed to %d (one job per tail "
+                               "length 0..%d; symbolic data_size, contents, count, chaining value)" % (nmax, nmax, t, B - 1),
                          tier=tier, timeout=900, assumptions=[A_SIMD, A_LOG, A_BYTELOOP]))
+    qt = quick_tails(B, lenbytes)
     for t in range(B):
-        content(t, B + 2, "quick" if t in QUICK_TAILS(B) else "thorough")
-    for t in QUICK_TAILS(B):
+        content(t, 66, "quick" if t in qt else "thorough")	# 66 = B + 2 for the 64-byte algorithms
+    for t in qt:
         content(t, 2 * B + 2, "thorough", ".n2")
+    return jobs
+
+
+def if_jobs(tag, alg, a, base, B):
+    """I, F, one-shot entry points for one digest-size variant."""
+    jobs = []
+    jobs.append(dict(name=tag + ".I", harness="harness/C04/hash_UF.c", defines=base + ["VF_FN_init"],
+                     enforce=[a["init"]], functions=[a["init"]], route="finite", timeout=120, assumptions=[A_SIMD]))
     jobs.append(dict(name=tag + ".F", harness="harness/C04/hash_UF.c", defines=base + ["VF_TRANSFORM_LOG", "VF_FN_final"],
-                     enforce=[a["final"]], replace=[a["transform"]] + a.get("final_extra_replace", []),
-                     functions=[a["final"]],
-                     pre_instrument=[["--add-library"]], cbmc=a.get("f_cbmc", []), route="finite", timeout=300,
-                     assumptions=[A_SIMD, A_LOG, A_WIPE]))
+                     enforce=[a["final"]], replace=a["transform"], functions=[a["final"]],
+                     pre_instrument=[["--add-library"]], cbmc=a.get("f_cbmc", []), route="finite", timeout=600,
+                     assumptions=[A_SIMD, A_LOG, A_WIPE, A_BUILTIN]))
     stream = [a["init"], a["update"], a["final"]]
     hexfn = a["pfx"] + "_cvt_hex"
     uw = ["--unwindset", "memcpy.0:%d,memset.0:%d" % (B + 2, 2 * B + 2), "--unwinding-assertions", "--object-bits", "10"]
@@ -132,22 +112,80 @@ def iuf_jobs(alg, a, bits):
                      defines=base + ["VF_FN_hash_get_digest_str", "VF_LIBC_BYTELOOP"],
                      enforce=[a["pfx"] + "_get_digest_str"], replace=stream + [hexfn],
                      functions=[a["pfx"] + "_get_digest_str", a["pfx"] + "_cvt_str"],
-                     cbmc=uw, route="finite", assumptions=[A_STREAM, "%s replaced by its contract (discharged by job %s.cvt_hex)" % (hexfn, alg)]))
-    if bits is None or bits == a["bits"][0]:
-        jobs.append(dict(name=alg + ".cvt_hex", harness="harness/C04/cvt_hex.c", mode="plain", defines=[a["D"]],
-                         functions=[hexfn], cbmc=["--unwind", "%d" % 66, "--unwinding-assertions"], route="finite",
-                         assumptions=["plain harness (no contract instrumentation): the digit table is a function-local static pointer"]))
+                     cbmc=uw, route="finite",
+                     assumptions=[A_STREAM, "%s replaced by its contract (discharged by job %s.cvt_hex)" % (hexfn, alg)]))
     return jobs
+
+
+def cvt_job(alg, a):
+    return dict(name=alg + ".cvt_hex", harness="harness/C04/cvt_hex.c", mode="plain", defines=[a["D"]],
+                functions=[a["pfx"] + "_cvt_hex"], cbmc=["--unwind", "66", "--unwinding-assertions"], route="finite",
+                assumptions=["plain harness (no contract instrumentation): the digit table is a function-local static pointer that --dfcc would havoc"])
+
+
+def c04_jobs():
+    jobs = []
+    # ---------------- MD5 ----------------
+    a = ALGS["md5"]
+    for r in range(4):
+        jobs.append(t_job("md5.T.align%d" % r, "harness/C04/md5_T.c", ["VF_ALIGN=%d" % r], "md5_transform", 64, timeout=120))
+    jobs.append(t_job("md5.T.alias", "harness/C04/md5_T.c", ["VF_T_ALIAS"], "md5_transform", 64, timeout=120))
+    jobs += u_jobs("md5", a, [a["D"]], 64, 8)
+    jobs += if_jobs("md5", "md5", a, [a["D"]], 64)
+    jobs.append(cvt_job("md5", a))
+    # ---------------- SHA-1, SHA-2 ----------------
+    jobs.append(dict(name="sha.lemma.ch_maj", harness="harness/C04/sha_lemma.c", mode="plain", functions=[],
+                     cbmc=[], route="finite", timeout=120,
+                     assumptions=["lemma used by specs/sha1_spec.h, specs/sha2_spec.h: OR spelling of Ch/Maj == FIPS 180-4 XOR spelling"]))
+    for alg, gen, blk, rounds in (("sha1", "sha1_transform_generic", 64, 80),
+                                  ("sha2", "sha2_transform_block64_generic", 64, 64),
+                                  ("sha2", "sha2_transform_block128_generic", 128, 80)):
+        a = ALGS[alg]
+        tag = "sha1" if alg == "sha1" else "sha2_b%d" % blk
+        base = [a["D"]] + (["VF_BLK=%d" % blk] if alg == "sha2" else [])
+        r = max(rounds, blk)
+        jobs.append(t_job(tag + ".T.n1", "harness/C04/sha_T.c", base + ["VF_T_FN=" + gen], gen, r))
+        jobs.append(t_job(tag + ".T.n1.align1", "harness/C04/sha_T.c", base + ["VF_ALIGN=1", "VF_T_FN=" + gen], gen, r))
+        jobs.append(t_job(tag + ".T.alias", "harness/C04/sha_T.c", base + ["VF_T_ALIAS", "VF_T_FN=" + gen], gen, r))
+        # the run-time dispatcher with the generic transform inlined
+        jobs.append(t_job(tag + ".T.dispatch", "harness/C04/sha_T.c", base + ["VF_T_FN=" + a["transform"][0]], a["transform"][0], r))
+        if alg == "sha1":
+            jobs.append(t_job(tag + ".T.n2", "harness/C04/sha_T.c", base + ["VF_T_NBLK=2", "VF_T_FN=" + gen], gen, r))
+            for n in (2, 3):
+                jobs.append(dict(name="%s.T.chain%d" % (tag, n), harness="harness/C04/sha_T_chain.c", mode="plain",
+                                 defines=base + ["VF_T_NBLK=%d" % n, "VF_T_FN=" + gen], functions=[gen], backend="cvc5",
+                                 cbmc=["--unwind", str(r + 2), "--unwinding-assertions"], route="bounded",
+                                 bound="%d consecutive blocks in one call (the block loop is the same code for every count)" % n,
+                                 timeout=300, assumptions=[A_SIMD, A_CVC5]))
+    a = ALGS["sha1"]
+    jobs += u_jobs("sha1", a, [a["D"]], 64, 8)
+    jobs += if_jobs("sha1", "sha1", a, [a["D"]], 64)
+    jobs.append(cvt_job("sha1", a))
+    a = ALGS["sha2"]
+    for blk, lb in ((64, 8), (128, 16)):  # sha2_update depends on the block size only
+        jobs += u_jobs("sha2_b%d" % blk, a, [a["D"], "VF_BLK=%d" % blk], blk, lb)
+    for bits in a["variants"]:
+        jobs += if_jobs("sha2_%d" % bits, "sha2", a, [a["D"], "VF_BITS=%d" % bits], blk_of("sha2", bits))
+    jobs.append(cvt_job("sha2", a))
+    # ---------------- GOST R 34.11-2012 ----------------
+    jobs += gost_jobs()
+    return jobs
+
+
+def gost_jobs():
+    return []
 
 
 def c07_jobs():
     jobs = []
     for alg, a in ALGS.items():
-        for bits in a["bits"]:
+        if alg == "gost" and not gost_jobs():
+            continue
+        for bits in a["variants"]:
             B = blk_of(alg, bits)
             tag = alg if bits is None else "%s_%d" % (alg, bits)
             base = [a["D"]] + ([] if bits is None else ["VF_BITS=%d" % bits]) + ["VF_LIBC_BYTELOOP"]
-            uw = ["--unwindset", "memcpy.0:%d,memset.0:%d" % (B + 2, 2 * B + 2), "--unwinding-assertions", "--object-bits", "10"]
+            uw = ["--unwindset", "memcpy.0:%d,memset.0:%d" % (B + 2, 130), "--unwinding-assertions", "--object-bits", "10"]
             stream = [a["init"], a["update"], a["final"]]
             h = a["hpfx"]
 
@@ -166,6 +204,7 @@ def c07_jobs():
 
 
 def main():
+    sys.path.insert(0, os.path.dirname(os.path.abspath(__file__)))
     from mkjobs_text import C04_TEXT, C07_TEXT  # explanation / not_covered / assumptions texts
     c04 = dict(property="C04", level="proof", defaults=dict(tier="quick", mode="dfcc", timeout=300), **C04_TEXT)
     c04["jobs"] = c04_jobs()
@@ -179,6 +218,4 @@ def main():
 
 
 if __name__ == "__main__":
-    import sys
-    sys.path.insert(0, os.path.dirname(os.path.abspath(__file__)))
     main()
